@@ -11,6 +11,7 @@ import (
 	_ "verif/checks/c05"
 	_ "verif/checks/c11"
 	_ "verif/checks/c12"
+	_ "verif/checks/c13"
 	_ "verif/checks/c15"
 	_ "verif/checks/c16"
 	_ "verif/checks/c17"
